@@ -61,7 +61,7 @@ def gen_lines(rnd, tier):
             kinds = ("o:F", "o:G", "c:G") if tier == "thorough" else (("o:F", "o:G", "c:G")[(i + 2 * j) % 3],)
             for kd in kinds:
                 L.append("verify|%s|1|0|1:M%s:%s%s%s|0" % (kd[0], si, kd[2], sc, "st"[(i + j) % 2]))
-    n = {"quick": 1500, "thorough": 40000}[tier]
+    n = {"quick": 5000, "thorough": 40000}[tier]
     for _ in range(n):
         vt = rnd.choice("oc")
         k = rnd.randint(1, 5)
